@@ -73,7 +73,15 @@ def r_conversion_history(run, tree):
     qs.check_to_stack(run, tree, only=("history",))
 
 
-RULES = [r7_conversion, r1_protocols, r2_catalogue, r3_no_inherit_without_reconcile, r4_dtype_gate, r5_out, r6_helpers, r8_end_to_end, r_conversion_history]
+def r_registry(run, tree):
+    run.rule("C10.R10", "'incompatible dimensions raise' rests on the one pint registry (shared with C08.R5/C07.R5): cgs system, NO context enabled (a context such as "
+             "'spectroscopy' makes length, frequency and energy mutually convertible, so nm + THz stops raising), units parsed as written",
+             "who-may-call + D7 fold of units/units.py::Units on a recording registry", "", floor=4)
+    from .c08 import check_registry
+    check_registry(run, tree)
+
+
+RULES = [r_registry, r7_conversion, r1_protocols, r2_catalogue, r3_no_inherit_without_reconcile, r4_dtype_gate, r5_out, r6_helpers, r8_end_to_end, r_conversion_history]
 
 
 def t_numpy_space(run, tree):
